@@ -6,6 +6,7 @@ import (
 	"fmt"
 	"os"
 	"path/filepath"
+	"strings"
 
 	"verif/harness/internal/tlaval"
 )
@@ -77,6 +78,8 @@ func (c *Ctx) ValidateTraceFile(module, cfg, path string, n int, opts ...TLCOpt)
 			if lv, ok := tf.State["l"].(int64); ok {
 				tf.Line = int(lv)
 			}
+		} else if strings.Contains(res.Output, "is violated by the initial state") {
+			tf.Line = 1 // TLC prints the initial state without a "State 1:" header
 		}
 		return tf, nil
 	}
